@@ -348,12 +348,12 @@ def detect_spec_version(stix_dict):
         # Bundle without a spec_version property: must be 2.1.  But to
         # future-proof, use max version over all contained SCOs, with 2.1
         # minimum.
-        v = max(
-            "2.1",
-            max(
-                detect_spec_version(obj) for obj in stix_dict["objects"]
-            ),
-        )
+        # "objects" is optional, and its content has not been validated yet:
+        # skip anything we can't detect a version for.
+        v = "2.1"
+        for obj in stix_dict.get("objects", []):
+            if isinstance(obj, collections.abc.Mapping) and "type" in obj:
+                v = max(v, detect_spec_version(obj))
     elif obj_type in mappings.STIX2_OBJ_MAPS["2.1"]["observables"]:
         # Non-bundle object with an ID and without spec_version.  Could be a
         # 2.1 SCO or 2.0 SDO/SRO/marking.  Check for 2.1 SCO...
